@@ -220,6 +220,13 @@ func runC15(o *opts) (*summary, error) {
 			role, ip, port = addrRoles[i%len(addrRoles)], bips[(i/len(addrRoles))%len(bips)], bports[i/(len(addrRoles)*len(bips))]
 		}
 		s := fmt.Sprintf("%d.%d.%d.%d:%d", ip[0], ip[1], ip[2], ip[3], port)
+		if i < nb {
+			// boundary address x boundary port x role: the parse itself is judged too (accept exactly / reject by the port rule)
+			emit(role, s, "boundary")
+			if port == 60000 || port == 0 {
+				emit(role, fmt.Sprintf("%d.%d.%d.%d", ip[0], ip[1], ip[2], ip[3]), "boundary")
+			}
+		}
 		ap, err := parseRole(role, s)
 		if err != nil {
 			continue // violates the role's port rule: (2)'s business
